@@ -5,6 +5,7 @@ P = dict(
         dict(module="MC_C05r", quick_cfg="MC_C05r.cfg", thorough_cfg="MC_C05r_thorough.cfg", workers=10),
         dict(module="MC_C05r", quick_cfg="MC_C05r_control.cfg", expect_violation=True, coverage=False, workers=10)],
     drift_checked=True,
+    proofs=["Proof_C05"],
     required_events=["shape"],
     level_text="MC_C05 steps the transcribed points() machines of Circle and Ellipse against the abstract row-major enumerator of "
                "the transcribed contains() (control: the snapshot's stop-at-empty-row behaviour is refuted); TLC validates, for every recorded shape, that the points() sequence is exactly the row-major enumeration of the "
